@@ -806,12 +806,27 @@ class World(object):
         Shut-down all simulators and close the server socket.
         """
         if not self.loop.is_closed():
+            error: Optional[Exception] = None
             for sim in self.sims.values():
-                self.loop.run_until_complete(sim.stop())
+                try:
+                    self.loop.run_until_complete(sim.stop())
+                except Exception as e:
+                    # A simulator that fails while it is being stopped
+                    # (e.g. in its finalize()) must not keep the other
+                    # simulators from being stopped.
+                    logger.error(
+                        "Simulator {sim_id} failed while being stopped: {error!r}",
+                        sim_id=sim.sid,
+                        error=e,
+                    )
+                    if error is None:
+                        error = e
 
             self.loop.stop()
             self.loop.run_forever()
             self.loop.close()
+            if error is not None:
+                raise error
 
 
 if TYPE_CHECKING:
